@@ -29,5 +29,5 @@ cOrder == [names |-> {N(<<"a">>), N(<<"b">>), NM("n", <<"b">>)}, anames |-> {}, 
 cAttrs == [names |-> {N(<<"a">>)}, anames |-> {N(<<"x">>), N(<<"y", "-", "z">>), NM("xmlns", <<"n">>), NM("n", <<"x">>)}, avals |-> {<<"1">>, <<"<", "&">>, <<>>},
            texts |-> {}, maxattrs |-> 3, extras |-> {}]
 cExtras == [names |-> {N(<<"a">>), N(<<"b", "-", "c">>)}, anames |-> {N(<<"x">>)}, avals |-> {<<"1">>}, texts |-> {<<" ", "t", " ">>, <<"\n">>, <<"<", "&">>},
-            maxattrs |-> 1, extras |-> {XC(<<"c", "&", "<", "'">>), XD(<<"D", "O", "C", "T", "Y", "P", "E", " ", "a">>), XP(<<"p", "i">>, <<"x", "=", "1">>)}]
+            maxattrs |-> 1, extras |-> {XC(<<"c", "&", "<", "'", ">", " ", "<", "b">>), XD(<<"D", "O", "C", "T", "Y", "P", "E", " ", "a">>), XP(<<"p", "i">>, <<"x", "=", "1", ">", "\n", "<", "y">>)}]   \* ("> <" inside a comment / instruction is text, not inter-element white space)
 =============================================================================
